@@ -490,10 +490,84 @@ def run_bench(run, env):
   return obs
 
 
+POLICY_ROOT_NS = 'designer_policy_v0'  # what the designer policies use
+POLICY_DESIGNER_NS = 'designer'
+# NSGA-II is hostable too, but a hosted NSGA-II is not reproducible (known
+# finding pinned/C14/hosted_nsga2_rng_not_restored.json): it is left out of the
+# generated cases so that the search continues behind it.
+HOSTABLE = ('quasi', 'grid', 'eagle', 'cmaes')
+
+
+def run_policy(run, env):
+  """The seeded designer hosted the way the service hosts it.
+
+  A fresh PartiallySerializableDesignerPolicy(problem, supporter, factory,
+  seed=run['seed']) is built for every request against one
+  InRamPolicySupporter (the policy restores the designer from the study
+  metadata).  Before the requests named in run['damage'] the stored *designer*
+  state is made undecodable (version skew / truncated write), the policy's own
+  cache state is left alone: the policy has to start the designer over - with
+  its seed.  Returns {'stream': [...], 'post': suggestions from the first
+  damaged request on, 'error'}.
+  """
+  from vizier import pythia
+  from vizier import pyvizier as vz
+  from vizier._src.algorithms.policies import designer_policy as dp
+  obs = {'stream': [], 'post': [], 'error': None}
+  names = [m[0] for m in run['metrics']]
+  damage = set(run.get('damage') or ())
+  with environment(env) as tick:
+    try:
+      problem = make_problem(run['space'], run['metrics'])
+      sup = pythia.InRamPolicySupporter(problem)
+      factory = designer_factory(run['designer'], run.get('opts') or {},
+                                 run.get('entry', 'ctor'))
+    except Exception as e:  # pylint: disable=broad-except
+      obs['error'] = _err('ctor', e)
+      return obs
+    damaged = False
+    pending = []
+    for i, step in enumerate(run['steps']):
+      tick(2 * i)
+      if i in damage and i > 0:
+        ns = sup.study_config.metadata.ns(POLICY_ROOT_NS).ns(
+            POLICY_DESIGNER_NS)
+        for sub in list(ns.namespaces()):
+          layer = ns.abs_ns(sub)
+          for k in list(layer.keys()):
+            layer[k] = '<lost'
+        damaged = True
+      try:
+        policy = dp.PartiallySerializableDesignerPolicy(
+            problem, sup, factory, seed=run['seed'])
+        got = list(sup.SuggestTrials(policy, step['count']))
+      except Exception as e:  # pylint: disable=broad-except
+        obs['error'] = _err('suggest#%d' % i, e)
+        return obs
+      batch = [params_py(t.parameters) for t in got]
+      obs['stream'].append(batch)
+      if damaged:
+        obs['post'].append(batch)
+      pending.extend(got)
+      fbs = list(step['fb'])
+      still = []
+      for t in pending:
+        fb = fbs.pop(0) if fbs else ['skip']
+        if fb[0] == 'skip':
+          still.append(t)
+        else:
+          finish(t, fb, names)
+      pending = still
+      tick(2 * i + 1)
+  return obs
+
+
 def execute(item):
-  """item = {'kind': 'stream'|'bench', 'run': {...}, 'env': {...}}."""
+  """item = {'kind': 'stream'|'bench'|'policy', 'run': {...}, 'env': {...}}."""
   if item['kind'] == 'stream':
     return run_stream(item['run'], item['env'])
+  if item['kind'] == 'policy':
+    return run_policy(item['run'], item['env'])
   return run_bench(item['run'], item['env'])
 
 
